@@ -9,7 +9,9 @@ def copyCfg : CopyCfg :=
   { initSave := true, failRestore := true, bondRestore := true, acceptSave := true, rejectRestore := true }
 def copies : Bool := copyCfg.all
 
-def loopFails (warnflag : Int) (relRed : Bool) : Bool := TopSearch.BH.loopFails warnflag relRed
+/-- the failure test of the loop of `run` -/
+def loopFails (warnflag : Int) (relRed : Bool) : Bool :=
+  (decide (warnflag ≠ (0 : Int)) || relRed)
 /-- the storing test of `prepare_initial_coordinates` -/
 def initStores (warnflag : Int) : Bool :=
   decide (warnflag = (0 : Int))
